@@ -1,5 +1,5 @@
 /-
-  C18 — Text object format round-trips every object file.   (partial)
+  C18 — Text object format round-trips every object file.   (assembled files, with or without debug symbols, and links of files without debug symbols: proved)
   Proved: the part the property singles out — "whatever characters the source text contains": for every string,
   `unescaper::unescape` applied to `str::escape_default` of it gives the string back (two-character escapes, printable
   ASCII, and `\u{…}` with lower-case hex for everything else, for every Unicode scalar), with the amount of fuel the
@@ -21,15 +21,24 @@
   underscore followed by word characters; their upper-casing contains no white space and no bar — kernel-checked over the
   generated Unicode tables) and are kept by `link`, so every file produced by assembling without debug symbols and by
   linking such files in any order and grouping round-trips, with no further hypothesis.
-  Not proved: the line table of `.DEBUG` (files assembled with debug symbols: line numbers, `????` addresses, escaped
-  source lines re-joined and condensed by `LineSymbolMap::new`); that part is exercised by the correspondence check: the
-  model's writer is compared byte for byte with the implementation's and both readers must return the original file.
+  `dbg_section_roundtrip`, `source_text_roundtrip_debug` (Lemmas/TxtDebug): the line table of `.DEBUG`.  For a symbol
+  table with debug symbols (`DbgOk`: as `SymOk`, the label table may be empty; the source info is that of its text; the
+  line map is the run-length condensation of a per-line vector as long as the line count — what `LineSymbolMap::new` makes)
+  the writer's table has one row per source line with that line's address or `????` (`lineTable_rows`), the reader takes
+  the rows back one by one (row number = position), `LineSymbolMap::new` of the addresses is the line map again, and the
+  escaped raw source lines, re-joined and unescaped, are the source text (`all_srcLines`, C18Core's escape theorem).
+  `DbgOk` holds for every file assembled with debug symbols from a source text that parses (`source_dbgOk`,
+  `final_vector2`), so such files round-trip with no further hypothesis.
+  Not proved: files obtained by LINKING files that carry debug symbols (merged line maps and concatenated sources); for
+  those the correspondence check compares the model's writer byte for byte with the implementation's and both readers
+  must return the original file.
   The theorems of the first paragraph are in Lemmas/C18Core.lean.
 -/
 import Lc3V.Lemmas.C18Core
 import Lc3V.Lemmas.TxtBlocks
 import Lc3V.Lemmas.TxtSym
 import Lc3V.Lemmas.TxtSource
+import Lc3V.Lemmas.TxtDebug
 namespace Lc3V.C18
 open Lc3V Txt
 
@@ -41,6 +50,8 @@ def obligations : List Lean.Name :=
    ``Lc3V.Txt.idxFold, ``Lc3V.Txt.restore_src, ``Lc3V.Txt.kept_lines2, ``Lc3V.Txt.groupLines_groups, ``Lc3V.Txt.read_sym,
    ``Lc3V.Txt.read_rel, ``Lc3V.Txt.read_dbg, ``Lc3V.Txt.sym_section_roundtrip,
    ``Lc3V.lexOne_label_word, ``Lc3V.parseAst_names, ``Lc3V.upperC_word_ok, ``Lc3V.nameOk_upper, ``Lc3V.source_symOk,
-   ``Lc3V.source_text_roundtrip_nodebug, ``Lc3V.link_txtOk, ``Lc3V.C20.linked_text_roundtrip]
+   ``Lc3V.source_text_roundtrip_nodebug, ``Lc3V.link_txtOk, ``Lc3V.C20.linked_text_roundtrip,
+   ``Lc3V.Txt.lineTable_rows, ``Lc3V.Txt.all_srcLines, ``Lc3V.Txt.lineTable_parse, ``Lc3V.Txt.kept_lines3, ``Lc3V.Txt.read_dbg2,
+   ``Lc3V.Txt.dbg_section_roundtrip, ``Lc3V.final_vector2, ``Lc3V.source_dbgOk, ``Lc3V.source_text_roundtrip_debug]
 
 end Lc3V.C18
